@@ -1580,6 +1580,23 @@ impl JsObject {
 
     /// Get a property, searching the prototype chain
     pub fn get_property(&self, key: &PropertyKey) -> Option<JsValue> {
+        if let Some(value) = self.get_own_property_value(key) {
+            return Some(value);
+        }
+        // Walk the prototype chain in a loop: it can be arbitrarily long
+        let mut next = self.prototype.clone();
+        while let Some(proto) = next {
+            let proto_ref = proto.borrow();
+            if let Some(value) = proto_ref.get_own_property_value(key) {
+                return Some(value);
+            }
+            next = proto_ref.prototype.clone();
+        }
+        None
+    }
+
+    /// The value of a property of this object itself (no prototype chain)
+    fn get_own_property_value(&self, key: &PropertyKey) -> Option<JsValue> {
         // For arrays, handle index access and length from elements Vec
         if let ExoticObject::Array { ref elements } = self.exotic {
             match key {
@@ -1709,20 +1726,30 @@ impl JsObject {
             }
         }
 
-        if let Some(prop) = self.properties.get(key) {
-            return Some(prop.value.clone());
-        }
-
-        if let Some(ref proto) = self.prototype {
-            return proto.borrow().get_property(key);
-        }
-
-        None
+        self.properties.get(key).map(|prop| prop.value.clone())
     }
 
     /// Get a property descriptor, searching the prototype chain
     /// Returns (property, found_in_prototype)
     pub fn get_property_descriptor(&self, key: &PropertyKey) -> Option<(Property, bool)> {
+        if let Some(own) = self.get_own_property_descriptor_value(key) {
+            return Some(own);
+        }
+        // Walk the prototype chain in a loop: it can be arbitrarily long
+        let mut next = self.prototype.clone();
+        while let Some(proto) = next {
+            let proto_ref = proto.borrow();
+            if let Some((prop, _)) = proto_ref.get_own_property_descriptor_value(key) {
+                return Some((prop, true));
+            }
+            next = proto_ref.prototype.clone();
+        }
+        None
+    }
+
+    /// The descriptor of a property of this object itself (no prototype chain); the flag is
+    /// always `false` (not found in a prototype)
+    fn get_own_property_descriptor_value(&self, key: &PropertyKey) -> Option<(Property, bool)> {
         // For arrays, handle index access and length from elements Vec
         if let ExoticObject::Array { ref elements } = self.exotic {
             match key {
@@ -1888,17 +1915,7 @@ impl JsObject {
             }
         }
 
-        if let Some(prop) = self.properties.get(key) {
-            return Some((prop.clone(), false));
-        }
-
-        if let Some(ref proto) = self.prototype
-            && let Some((prop, _)) = proto.borrow().get_property_descriptor(key)
-        {
-            return Some((prop, true));
-        }
-
-        None
+        self.properties.get(key).map(|prop| (prop.clone(), false))
     }
 
     /// Set a property
